@@ -53,6 +53,11 @@ TEXT = {
         note="Depth-capped (quick 7 from each root, thorough 10): reported as exhaustive:false with the bound. Composite (incl. two live revisions) and decorator are explored separately.",
         technique="explicit-state BFS over the real code (snapshot/restore, canonical-state dedup), temporal monitors on request logs",
     ),
+    "C01": dict(
+        level="Bounded-exhaustive model checking of reconciliation histories: every scenario of the product configuration x hook program x initial cluster contents (x stale-cache deviations) is driven through real syncs until nothing changes; oracle = independent fixpoint (hook program evaluated on the final cluster: owned set equals desired set, hook-specified fields have the hook's values where the strategy permits updates), bounded rounds, and quiescence (a further sync leaves the store byte-identical and sends no child write).",
+        note="Hook programs are pure. Values: one owned field, one foreign field. The quick tier is a covering sub-product, the thorough tier the full product.",
+        technique="bounded-exhaustive enumeration of scenarios, each executed to a fixpoint on the real code; differential fixpoint oracle",
+    ),
 }
 
 PENDING_REASON = "check not built yet in this session (planned in DESIGN.md §4); no claim is made until its check runs clean on the unchanged tree"
